@@ -7,8 +7,12 @@ ID = 'C09'
 LEAN_TARGETS = ['Props.C09']
 TIE_A = ['meth_project_eq']
 OBLIGATIONS = ['C09.vector_product_split', 'C09.involuted_product_split', 'C09.vector_blade_wedge', 'C09.vector_blade_inner', 'C09.blade_vector_inner',
-               'C09.project_plus_remainder', 'C09.one_plus_unit_vector_not_versor']
-PARTIAL = ['factorise / basis reassembly, idempotence-containment-orthogonality of project and the grade formulas of join and meet have no Lean theorem: '
+               'C09.project_plus_remainder', 'C09.one_plus_unit_vector_not_versor',
+               'C09.project_blade_inverse', 'C09.project_formula', 'C09.project_idempotent', 'C09.project_lies_in_blade', 'C09.project_remainder_orthogonal']
+PARTIAL = ['project: the theorems are for a blade given as a geometric product of pairwise orthogonal non-null vectors; that every non-null blade is a multiple of one '
+           '(Gram-Schmidt) is not formalised -- the harness orthogonalises the integer spanning vectors exactly and checks both the premise and the closed form '
+           'on the implementation',
+           'factorise / basis reassembly and the grade formulas of join and meet have no Lean theorem: '
            'decided by evaluation on the implementation with integer spanning vectors (conditioning-scaled tolerance)']
 RULE = ("non-degenerate signatures with n<=5 (n<=6 thorough), every k, spanning vectors with small integer coordinates (well conditioned: Gram determinant of the blade "
         "bounded away from 0), shared/private factor constructions for join and meet. Non-trivial = k>=2; distinct = distinct (signature, spanning vectors)")
@@ -25,6 +29,25 @@ def vec(L, coords):
     for c, e in zip(coords, E):
         v = v + float(c) * e
     return v
+
+
+def form(sig, u, v):
+    return sum(Fraction(s) * a * b for s, a, b in zip(sig, u, v))
+
+
+def gram_schmidt(sig, C):
+    """pairwise orthogonal rational vectors with the same flag of spans as the rows of C (unitriangular change of basis), or None when
+    an intermediate vector is null"""
+    out = []
+    for row in C:
+        v = [Fraction(int(c)) for c in row]
+        for b in out:
+            c = form(sig, v, b) / form(sig, b, b)
+            v = [vi - c * bi for vi, bi in zip(v, b)]
+        if form(sig, v, v) == 0:
+            return None
+        out.append(v)
+    return out
 
 
 def wedge_all(vs):
@@ -98,13 +121,34 @@ def check_blade_ops(res, L, rng, tag, reps):
                 res.violate('basis() does not return k vectors spanning the blade', inp, [b.value.tolist() for b in bs], None, dict(site, op='basis', k=k))
         # project
         with common.guard(res, 'project', site, inp):
-            x = vec(L, rng.integers(-4, 5, size=n))
+            xi = [int(c) for c in rng.integers(-4, 5, size=n)]
+            x = vec(L, xi)
             P = B.project(x)
             xs = float(np.max(np.abs(x.value))) + 1
             if not near(B.project(P).value, P.value, xs):
                 res.violate('project is not idempotent', dict(inp, x=x.value.tolist()), B.project(P).value.tolist(), P.value.tolist(), dict(site, op='project-idempotent', k=k))
             if not near((P ^ B).value, 0 * B.value, xs * scale):
                 res.violate('project(x) does not lie in the blade', dict(inp, x=x.value.tolist()), (P ^ B).value.tolist(), 0, dict(site, op='project-in', k=k))
+            # the closed form of C09.project_formula: Gram-Schmidt (exact rationals) gives pairwise orthogonal b_i spanning the blade;
+            # when every b_i is non-null, B is their geometric product and project(x) = sum_i (x.b_i / b_i.b_i) b_i
+            xc = [Fraction(c) for c in xi]
+            ortho = gram_schmidt(sig, C)
+            if ortho is not None:
+                res.count('project_formula')
+                exp = [Fraction(0)] * n
+                for b in ortho:
+                    c = form(sig, xc, b) / form(sig, b, b)
+                    exp = [e_ + c * bi for e_, bi in zip(exp, b)]
+                expv = vec(L, [float(c) for c in exp])
+                if not near(P.value, expv.value, xs):
+                    res.violate('project(x) is not the orthogonal projection sum (x.b_i / b_i^2) b_i onto the factors (C09.project_formula)',
+                                dict(inp, x=x.value.tolist()), P.value.tolist(), [core.fstr(c) for c in exp], dict(site, op='project-formula', k=k))
+                gp = vec(L, [float(c) for c in ortho[0]])
+                for b in ortho[1:]:
+                    gp = gp * vec(L, [float(c) for c in b])
+                if not near(gp.value, B.value, scale):
+                    res.violate('the blade is not the geometric product of its orthogonalised factors (premise of C09.project_formula)', inp,
+                                gp.value.tolist(), B.value.tolist(), dict(site, op='project-premise', k=k))
             rem = x - P
             for v in vs:
                 if not near((rem | v).value, 0 * B.value, xs * (float(np.max(np.abs(v.value))) + 1)):
